@@ -753,7 +753,8 @@ class Exec:
                                f"{entry} run succeeded although the same content fails in a fresh process ({exp.get('exc')}: {exp.get('msg')})")
             elif exp['outcome'] != 'ok' and entry in ('client', 'client_params', 'hip') and exc != 'RuntimeError' \
                     and not (txt is None and entry == 'client_params'):
-                self.V('C08', 'failure_class', f'{entry}_{exc}', f'client signalled failure with {exc} instead of RuntimeError')
+                # the property does not name an exception type: counted, not judged
+                self.probe(f'client_failure_signalled_with_{exc}')
         # ---- files (C20) -----------------------------------------------------------------
         if entry in ('cli', 'main_argv'):
             rp_exists = os.path.exists(report_path)
